@@ -326,7 +326,19 @@ func (c *Ctx) ruleImportScope() {
 			switch f := c.passFieldCall(ci); f {
 			case "ImportPackageFact":
 				n++
-				c.check(strings.HasPrefix(FuncName(fn), "indexing.iterOverPackages"), "IMPORT-SCOPE", FuncName(fn), P.Pos(ci.Pos()), "facts are imported in iterOverPackages only", "pass.ImportPackageFact is called outside indexing.iterOverPackages: a second, differently scoped channel for annotations")
+				// only inside the package iterator(s) of package indexing (each of which ITER-PACKAGES holds to the
+				// "own package, then every direct import" shape)
+				top := fn
+				for top.Parent() != nil {
+					top = top.Parent()
+				}
+				inIter := false
+				for _, n := range c.pkgIterators() {
+					if baseName(top) == n {
+						inIter = true
+					}
+				}
+				c.check(inIter, "IMPORT-SCOPE", FuncName(fn), P.Pos(ci.Pos()), "facts are imported in the package iterator only", "pass.ImportPackageFact is called outside the package iterator of package indexing: a second, differently scoped channel for annotations")
 			case "ExportObjectFact", "ImportObjectFact", "AllPackageFacts", "AllObjectFacts":
 				c.fail("IMPORT-SCOPE", FuncName(fn), P.Pos(ci.Pos()), "pass."+f+" is used: annotations of packages other than direct imports (or per-object channels) can influence diagnostics")
 			}
